@@ -69,7 +69,7 @@ Ante(c, e, p, m, m2, M, s) ==
     [] c = "C07_Params"   -> \E pl \in ParamLetters : m2.params[pl].set
     [] c = "CV_Convert"   -> e.call \in CV_Calls /\ e.out = "ok"
     [] c = "CV_Pure"      -> e.call \in CV_Calls
-    [] c = "C20_Count"    -> C20_Ante(e, p, m, m2, M)
+    [] c = "C20_Count"    -> C20_Ante(e, p, m, m2, M) \/ (~e.ph /\ G1Lines(e) # {})
     [] c = "C20_Geometry" -> C20_Ante(e, p, m, m2, M)
     [] c = "C20_Params"   -> C20_Ante(e, p, m, m2, M)
     [] c = "C20_Extrusion" -> e.eh /\ e.out = "ok" /\ ExtrusionWalk(e, m, esw).n > 0
